@@ -122,7 +122,8 @@ class SigmaCorrelationCondition:
         unknown_keys = d_keys.difference(ops).difference({"field", "percentile"})
         if unknown_keys:
             raise sigma_exceptions.SigmaCorrelationConditionError(
-                "Sigma correlation condition contains invalid items: " + ", ".join(unknown_keys),
+                "Sigma correlation condition contains invalid items: "
+                + ", ".join(sorted(str(key) for key in unknown_keys)),
                 source=source,
             )
 
@@ -136,7 +137,7 @@ class SigmaCorrelationCondition:
                 cond_op = SigmaCorrelationConditionOperator[op.upper()]
                 try:
                     cond_count = int(d[op])
-                except ValueError:
+                except (ValueError, TypeError):
                     raise sigma_exceptions.SigmaCorrelationConditionError(
                         f"'{ d[op] }' is no valid Sigma correlation condition count", source=source
                     )
@@ -153,7 +154,7 @@ class SigmaCorrelationCondition:
             cond_percentile = int(d["percentile"])
         except KeyError:
             cond_percentile = None
-        except ValueError:
+        except (ValueError, TypeError):
             raise sigma_exceptions.SigmaCorrelationConditionError(
                 f"'{ d['percentile'] }' is no valid Sigma correlation condition percentile",
                 source=source,
@@ -351,7 +352,7 @@ class SigmaCorrelationTimespan:
                     "y": 31556952,
                 }[self.unit]
             )
-        except (ValueError, KeyError):
+        except (ValueError, KeyError, TypeError):  # TypeError: not a string
             raise sigma_exceptions.SigmaTimespanError(f"Timespan '{ self.spec }' is invalid.")
 
 
